@@ -5,7 +5,7 @@
 Self-contained (no import).  Object identity of `FNode`s is abstracted to the node id
 (`FNode._node_id`, handed out consecutively by `create_node`); CPython `id()` — which
 `FormulaManager.Array` sorts by and `FNode.array_value_get` searches by — is an explicit
-parameter `addr : Id → Nat`.
+parameter `addr : Nid → Nat`.
 
 Everything that changes a manager is a `Prog`: a tree of *primitive requests* (`Prim`)
 with continuations.  The primitives are the only state-changing code of the Python class:
@@ -23,7 +23,8 @@ is written in terms of them.
 -/
 namespace PySMT.Manager
 
-abbrev Id := Nat
+/-- node ids (`FNode._node_id`); a notation, so that it *is* `Nat` for `omega` -/
+notation "Nid" => Nat
 
 /-! ## Types (`pysmt/typing.py`) -/
 
@@ -137,25 +138,25 @@ inductive Payload
   | bv (value width : Nat)           -- BV_CONSTANT `(value, width)`
   | nums (l : List Int)              -- BV operators: `(width,)`, `(size,start,end)`, `(width,step)`
   | sym (name : String) (ty : Ty)    -- SYMBOL `(name, type)`
-  | vars (l : List Id)               -- FORALL / EXISTS: tuple of bound symbols
-  | fn (f : Id)                      -- FUNCTION: the function symbol
+  | vars (l : List Nid)               -- FORALL / EXISTS: tuple of bound symbols
+  | fn (f : Nid)                      -- FUNCTION: the function symbol
   | ty (t : Ty)                      -- ARRAY_VALUE: index type
   | alg (tag : String)               -- ALGEBRAIC_CONSTANT: opaque numeral
   deriving DecidableEq, Repr
 
 structure Content where
   nodeType : Nat
-  args : List Id
+  args : List Nid
   payload : Payload
   deriving DecidableEq, Repr
 
-def Payload.ids : Payload → List Id
+def Payload.ids : Payload → List Nid
   | .vars l => l
   | .fn f => [f]
   | _ => []
 
 /-- All formula objects a content refers to (children and payload nodes). -/
-def Content.ids (c : Content) : List Id := c.args ++ c.payload.ids
+def Content.ids (c : Content) : List Nid := c.args ++ c.payload.ids
 
 /-! ## Python values used as constant spellings -/
 
@@ -227,20 +228,20 @@ def TypeMgr.init : TypeMgr :=
     customDecls := [], customTypes := [] }
 
 structure Mgr where
-  formulae : List (Content × Id)
+  formulae : List (Content × Nid)
   nextId : Nat
-  symbols : List (String × Id)
-  intConsts : List (Int × Id)
-  realConsts : List (PyNum × Id)
-  strConsts : List (String × Id)
+  symbols : List (String × Nid)
+  intConsts : List (Int × Nid)
+  realConsts : List (PyNum × Nid)
+  strConsts : List (String × Nid)
   fresh : Nat
   tm : TypeMgr
   deriving Repr
 
 def trueC : Content := ⟨NT.BOOL_CONSTANT, [], .bool true⟩
 def falseC : Content := ⟨NT.BOOL_CONSTANT, [], .bool false⟩
-abbrev trueId : Id := 1
-abbrev falseId : Id := 2
+abbrev trueId : Nid := 1
+abbrev falseId : Nid := 2
 
 /-- `FormulaManager.__init__`: ids start at 1, TRUE and FALSE are created first. -/
 def Mgr.init : Mgr :=
@@ -256,19 +257,19 @@ def assocBy (p : α → Bool) : List (α × β) → Option β
   | (k', v) :: t => if p k' then some v else assocBy p t
 
 /-- The node with a given id (`FNode._content`). -/
-def rassoc (i : Id) : List (Content × Id) → Option Content
+def rassoc (i : Nid) : List (Content × Nid) → Option Content
   | [] => none
   | (c, j) :: t => if i = j then some c else rassoc i t
 
-def Mgr.content? (s : Mgr) (i : Id) : Option Content := rassoc i s.formulae
+def Mgr.content? (s : Mgr) (i : Nid) : Option Content := rassoc i s.formulae
 
-def Mgr.validId (s : Mgr) (i : Id) : Bool := decide (0 < i) && decide (i < s.nextId)
+def Mgr.validId (s : Mgr) (i : Nid) : Bool := decide (0 < i) && decide (i < s.nextId)
 
 /-! ## Primitive state changes -/
 
 /-- `create_node` (formula.py:95-106).  The arguments are `FNode` objects in Python, hence
     always existing nodes; the model checks that explicitly. -/
-def createNode (c : Content) (s : Mgr) : Except Err Id × Mgr :=
+def createNode (c : Content) (s : Mgr) : Except Err Nid × Mgr :=
   if c.ids.all s.validId then
     match assoc c s.formulae with
     | some i => (.ok i, s)
@@ -282,7 +283,7 @@ def strC (x : String) : Content := ⟨NT.STR_CONSTANT, [], .str x⟩
 def symC (name : String) (t : Ty) : Content := ⟨NT.SYMBOL, [], .sym name t⟩
 
 /-- `Int(value)`, repaired order (F07): validate the argument, then consult the cache. -/
-def intConst (v : PyNum) (s : Mgr) : Except Err Id × Mgr :=
+def intConst (v : PyNum) (s : Mgr) : Except Err Nid × Mgr :=
   match v.intValue with
   | .error e => (.error e, s)
   | .ok n =>
@@ -295,7 +296,7 @@ def intConst (v : PyNum) (s : Mgr) : Except Err Id × Mgr :=
 
 /-- `Real(value)`, repaired order (F07).  The cache is keyed by the Python *value* as given,
     looked up with Python `==`. -/
-def realConst (v : PyNum) (s : Mgr) : Except Err Id × Mgr :=
+def realConst (v : PyNum) (s : Mgr) : Except Err Nid × Mgr :=
   match v.realValue with
   | .error e => (.error e, s)
   | .ok q =>
@@ -308,18 +309,18 @@ def realConst (v : PyNum) (s : Mgr) : Except Err Id × Mgr :=
 
 /-- `Int`/`Real` as they were before the repair (cache consulted first): kept only to state
     F07 (`Props/C04.lean`), never used by a constructor below. -/
-def intConstLegacy (v : PyNum) (s : Mgr) : Except Err Id × Mgr :=
+def intConstLegacy (v : PyNum) (s : Mgr) : Except Err Nid × Mgr :=
   match assocBy (fun (k : Int) => (PyNum.int k).pyEq v) s.intConsts with
   | some i => (.ok i, s)
   | none => intConst v s
 
-def realConstLegacy (v : PyNum) (s : Mgr) : Except Err Id × Mgr :=
+def realConstLegacy (v : PyNum) (s : Mgr) : Except Err Nid × Mgr :=
   match assocBy (fun k => k.pyEq v) s.realConsts with
   | some i => (.ok i, s)
   | none => realConst v s
 
 /-- `String(value)` for a `str` value. -/
-def strConst (x : String) (s : Mgr) : Except Err Id × Mgr :=
+def strConst (x : String) (s : Mgr) : Except Err Nid × Mgr :=
   match assoc x s.strConsts with
   | some i => (.ok i, s)
   | none =>
@@ -328,7 +329,7 @@ def strConst (x : String) (s : Mgr) : Except Err Id × Mgr :=
     | r => r
 
 /-- `get_or_create_symbol` + `_create_symbol` (formula.py:108-147). -/
-def symbolPrim (name : String) (t : Ty) (s : Mgr) : Except Err Id × Mgr :=
+def symbolPrim (name : String) (t : Ty) (s : Mgr) : Except Err Nid × Mgr :=
   match assoc name s.symbols with
   | some i =>
     match s.content? i with
@@ -386,7 +387,7 @@ mutual
       | .ok tm1 => tm1.intern h
 end
 
-def internTyPrim (t : Ty) (s : Mgr) : Except Err Id × Mgr :=
+def internTyPrim (t : Ty) (s : Mgr) : Except Err Nid × Mgr :=
   match s.tm.intern t with
   | .ok tm' => (.ok 0, { s with tm := tm' })
   | .error e => (.error e, s)
@@ -402,7 +403,7 @@ inductive Prim
   | setFresh (n : Nat)
   | internTy (t : Ty)
 
-def Prim.exec : Prim → Mgr → Except Err Id × Mgr
+def Prim.exec : Prim → Mgr → Except Err Nid × Mgr
   | .create c, s => createNode c s
   | .intConst v, s => PySMT.Manager.intConst v s
   | .realConst v, s => PySMT.Manager.realConst v s
@@ -415,7 +416,7 @@ inductive Prog (α : Type) : Type
   | pure (a : α)
   | fail (e : Err)
   | read (k : Mgr → Prog α)
-  | prim (p : Prim) (k : Id → Prog α)
+  | prim (p : Prim) (k : Nid → Prog α)
 
 def Prog.bind : Prog α → (α → Prog β) → Prog β
   | .pure a, f => f a
@@ -439,8 +440,8 @@ def Prog.run : Prog α → Mgr → Except Err α × Mgr
 
 def getS : Prog Mgr := .read .pure
 def failP (e : Err) : Prog α := .fail e
-def create (c : Content) : Prog Id := .prim (.create c) .pure
-def getC (i : Id) : Prog Content :=
+def create (c : Content) : Prog Nid := .prim (.create c) .pure
+def getC (i : Nid) : Prog Content :=
   .read fun s => match s.content? i with
     | some c => .pure c
     | none => .fail .badId
@@ -459,7 +460,7 @@ def isConstantNT (nt : Nat) : Bool :=
   nt == NT.BV_CONSTANT || nt == NT.STR_CONSTANT || nt == NT.ALGEBRAIC_CONSTANT
 
 /-- Type of a well-sorted formula, as `SimpleTypeChecker` computes it (no checking). -/
-def typeOfAux (s : Mgr) : Nat → Id → Option Ty
+def typeOfAux (s : Mgr) : Nat → Nid → Option Ty
   | 0, _ => none
   | fuel + 1, i =>
     match s.content? i with
@@ -498,10 +499,10 @@ def typeOfAux (s : Mgr) : Nat → Id → Option Ty
          | _, _ => none)
       else none
 
-def Mgr.typeOf (s : Mgr) (i : Id) : Option Ty := typeOfAux s (i + 1) i
+def Mgr.typeOf (s : Mgr) (i : Nid) : Option Ty := typeOfAux s (i + 1) i
 
 /-- `FNode.bv_width` (fnode.py:468-490); `none` where Python raises. -/
-def bvWidthAux (s : Mgr) : Nat → Id → Option Nat
+def bvWidthAux (s : Mgr) : Nat → Nid → Option Nat
   | 0, _ => none
   | fuel + 1, i =>
     match s.content? i with
@@ -523,10 +524,10 @@ def bvWidthAux (s : Mgr) : Nat → Id → Option Nat
         (match c.payload with | .nums (w :: _) => some w.toNat | _ => none)
       else none
 
-def Mgr.bvWidth (s : Mgr) (i : Id) : Option Nat := bvWidthAux s (i + 1) i
+def Mgr.bvWidth (s : Mgr) (i : Nid) : Option Nat := bvWidthAux s (i + 1) i
 
 /-- `FNode.is_constant()` without arguments (fnode.py:145-161). -/
-def isConstantAux (s : Mgr) : Nat → Id → Bool
+def isConstantAux (s : Mgr) : Nat → Nid → Bool
   | 0, _ => false
   | fuel + 1, i =>
     match s.content? i with
@@ -536,7 +537,7 @@ def isConstantAux (s : Mgr) : Nat → Id → Bool
       else if c.nodeType = NT.ARRAY_VALUE then c.args.all (isConstantAux s fuel)
       else false
 
-def Mgr.isConstant (s : Mgr) (i : Id) : Bool := isConstantAux s (i + 1) i
+def Mgr.isConstant (s : Mgr) (i : Nid) : Bool := isConstantAux s (i + 1) i
 
 /-! ## Constructors (`FormulaManager`), in the order of formula.py
 
@@ -553,41 +554,41 @@ constant = `Times(left, Real(1/c))` · `ToReal` of a Real term / of an Int const
 `BVNand/BVNor/BVXnor` · `BVSMod` expansion · `BVRepeat` · `Array` (sorted, default-valued
 assignments dropped) · `FreshSymbol` naming. -/
 
-def mkPlain (nt : Nat) (args : List Id) : Prog Id := create ⟨nt, args, .none⟩
+def mkPlain (nt : Nat) (args : List Nid) : Prog Nid := create ⟨nt, args, .none⟩
 
-def mkSymbol (name : String) (t : Ty) : Prog Id := .prim (.symbol name t) .pure
-def mkReal (v : PyNum) : Prog Id := .prim (.realConst v) .pure
-def mkInt (v : PyNum) : Prog Id := .prim (.intConst v) .pure
+def mkSymbol (name : String) (t : Ty) : Prog Nid := .prim (.symbol name t) .pure
+def mkReal (v : PyNum) : Prog Nid := .prim (.realConst v) .pure
+def mkInt (v : PyNum) : Prog Nid := .prim (.intConst v) .pure
 
 inductive PyStr
   | str (x : String)
   | other
   deriving DecidableEq, Repr
 
-def mkString : PyStr → Prog Id
+def mkString : PyStr → Prog Nid
   | .str x => .prim (.strConst x) .pure
   | .other => failP .typeError
 
-def mkBool : PyNum → Prog Id
+def mkBool : PyNum → Prog Nid
   | .bool b => pure (if b then trueId else falseId)
   | _ => failP .typeError
 
 /-- `new_fresh_symbol`: first unused `base % count` from `_fresh_guess` on. -/
-def freshFind (syms : List (String × Id)) (pre post : String) : Nat → Nat → Nat
+def freshFind (syms : List (String × Nid)) (pre post : String) : Nat → Nat → Nat
   | 0, count => count
   | fuel + 1, count =>
     if (assoc (pre ++ toString count ++ post) syms).isSome then freshFind syms pre post fuel (count + 1)
     else count
 
-def mkFreshSymbol (t : Ty) (pre post : String) : Prog Id :=
+def mkFreshSymbol (t : Ty) (pre post : String) : Prog Nid :=
   .read fun s =>
     let count := freshFind s.symbols pre post (s.symbols.length + 1) s.fresh
     .prim (.setFresh (count + 1)) fun _ => mkSymbol (pre ++ toString count ++ post) t
 
-def mkQuant (nt : Nat) (vars : List Id) (body : Id) : Prog Id :=
+def mkQuant (nt : Nat) (vars : List Nid) (body : Nid) : Prog Nid :=
   if vars.isEmpty then pure body else create ⟨nt, [body], .vars vars⟩
 
-def mkFunction (f : Id) (params : List Id) : Prog Id :=
+def mkFunction (f : Nid) (params : List Nid) : Prog Nid :=
   if params.isEmpty then pure f else do
     let c ← getC f
     match c.payload with
@@ -596,7 +597,7 @@ def mkFunction (f : Id) (params : List Id) : Prog Id :=
     | .sym _ _ => failP .typeError
     | _ => failP .assertion
 
-def mkNot (f : Id) : Prog Id := do
+def mkNot (f : Nid) : Prog Nid := do
   let c ← getC f
   if c.nodeType = NT.NOT then
     match c.args with
@@ -604,25 +605,25 @@ def mkNot (f : Id) : Prog Id := do
     | [] => failP .indexError
   else create ⟨NT.NOT, [f], .none⟩
 
-def mkNary (nt : Nat) (onEmpty : Prog Id) : List Id → Prog Id
+def mkNary (nt : Nat) (onEmpty : Prog Nid) : List Nid → Prog Nid
   | [] => onEmpty
   | [a] => pure a
   | args => create ⟨nt, args, .none⟩
 
-def mkAnd : List Id → Prog Id := mkNary NT.AND (pure trueId)
-def mkOr : List Id → Prog Id := mkNary NT.OR (pure falseId)
-def mkPlus : List Id → Prog Id := mkNary NT.PLUS (failP .typeError)
-def mkTimes : List Id → Prog Id := mkNary NT.TIMES (failP .typeError)
+def mkAnd : List Nid → Prog Nid := mkNary NT.AND (pure trueId)
+def mkOr : List Nid → Prog Nid := mkNary NT.OR (pure falseId)
+def mkPlus : List Nid → Prog Nid := mkNary NT.PLUS (failP .typeError)
+def mkTimes : List Nid → Prog Nid := mkNary NT.TIMES (failP .typeError)
 
-def mkStrConcat (args : List Id) : Prog Id :=
+def mkStrConcat (args : List Nid) : Prog Nid :=
   if args.length ≤ 1 then failP .typeError else create ⟨NT.STR_CONCAT, args, .none⟩
 
-def isConstP (i : Id) : Prog Bool := .read fun s => .pure (s.isConstant i)
+def isConstP (i : Nid) : Prog Bool := .read fun s => .pure (s.isConstant i)
 
 /-- `Pow` (formula.py:258-269).  Folding is modelled for an Int/Real constant base and a
     non-negative Int constant exponent; other constant combinations go through Python floats
     or raise `ZeroDivisionError` (F05) and are outside the modelled fragment. -/
-def mkPow (b e : Id) : Prog Id := do
+def mkPow (b e : Nid) : Prog Nid := do
   let ec ← isConstP e
   if !ec then failP .valueError else
   let bc ← isConstP b
@@ -636,7 +637,7 @@ def mkPow (b e : Id) : Prog Id := do
   else create ⟨NT.POW, [b, e], .none⟩
 
 /-- `Div` (formula.py:271-286) with `enable_div_by_0 = True` (the default). -/
-def mkDiv (l r : Id) : Prog Id := do
+def mkDiv (l r : Nid) : Prog Nid := do
   let cr ← getC r
   let isZero := (cr.nodeType = NT.REAL_CONSTANT && cr.payload == .rat 0) ||
                 (cr.nodeType = NT.INT_CONSTANT && cr.payload == .int 0)
@@ -649,12 +650,12 @@ def mkDiv (l r : Id) : Prog Id := do
     | _ => failP .assertion
   else create ⟨NT.DIV, [l, r], .none⟩
 
-def typeOfP (i : Id) : Prog Ty :=
+def typeOfP (i : Nid) : Prog Ty :=
   .read fun s => match s.typeOf i with
     | some t => .pure t
     | none => .fail .typeError
 
-def mkToReal (f : Id) : Prog Id := do
+def mkToReal (f : Nid) : Prog Nid := do
   let t ← typeOfP f
   if t = .real then pure f
   else if t = .int then
@@ -666,20 +667,20 @@ def mkToReal (f : Id) : Prog Id := do
     else create ⟨NT.TOREAL, [f], .none⟩
   else failP .typeError
 
-def mkEqualsOrIff (l r : Id) : Prog Id := do
+def mkEqualsOrIff (l r : Nid) : Prog Nid := do
   let t ← typeOfP l
   if t = .bool then mkPlain NT.IFF [l, r] else mkPlain NT.EQUALS [l, r]
 
-def mkXor (l r : Id) : Prog Id := do
+def mkXor (l r : Nid) : Prog Nid := do
   let i ← mkPlain NT.IFF [l, r]
   mkNot i
 
-def mkNotEquals (l r : Id) : Prog Id := do
+def mkNotEquals (l r : Nid) : Prog Nid := do
   let i ← mkPlain NT.EQUALS [l, r]
   mkNot i
 
 /-- `AtMostOne` (formula.py:496-508): `And [ eᵢ → ¬ Or(e_{i+1..}) | i < n-1 ]`. -/
-def atMostOneAux : List Id → Prog (List Id)
+def atMostOneAux : List Nid → Prog (List Nid)
   | [] => pure []
   | [_] => pure []
   | e :: rest => do
@@ -689,16 +690,16 @@ def atMostOneAux : List Id → Prog (List Id)
     let cs ← atMostOneAux rest
     pure (imp :: cs)
 
-def mkAtMostOne (args : List Id) : Prog Id := do
+def mkAtMostOne (args : List Nid) : Prog Nid := do
   let cs ← atMostOneAux args
   mkAnd cs
 
-def mkExactlyOne (args : List Id) : Prog Id := do
+def mkExactlyOne (args : List Nid) : Prog Nid := do
   let o ← mkOr args
   let a ← mkAtMostOne args
   mkAnd [o, a]
 
-def allDiffRow (a : Id) : List Id → Prog (List Id)
+def allDiffRow (a : Nid) : List Nid → Prog (List Nid)
   | [] => pure []
   | b :: t => do
     let e ← mkEqualsOrIff a b
@@ -706,19 +707,19 @@ def allDiffRow (a : Id) : List Id → Prog (List Id)
     let r ← allDiffRow a t
     pure (n :: r)
 
-def allDiffAux : List Id → Prog (List Id)
+def allDiffAux : List Nid → Prog (List Nid)
   | [] => pure []
   | a :: t => do
     let row ← allDiffRow a t
     let rest ← allDiffAux t
     pure (row ++ rest)
 
-def mkAllDifferent (args : List Id) : Prog Id := do
+def mkAllDifferent (args : List Nid) : Prog Nid := do
   let cs ← allDiffAux args
   mkAnd cs
 
 /-- `_MinWrap` / `_MaxWrap` (formula.py:540-564). -/
-def minMaxAux (isMin : Bool) (le : Id → Id → Prog Id) : Nat → List Id → Prog Id
+def minMaxAux (isMin : Bool) (le : Nid → Nid → Prog Nid) : Nat → List Nid → Prog Nid
   | 0, _ => failP .assertion
   | fuel + 1, exprs =>
     match exprs with
@@ -734,7 +735,7 @@ def minMaxAux (isMin : Bool) (le : Id → Id → Prog Id) : Nat → List Id → 
       let c ← le a b
       if isMin then create ⟨NT.ITE, [c, a, b], .none⟩ else create ⟨NT.ITE, [c, b, a], .none⟩
 
-def mkMinMax (isMin : Bool) (leNT : Nat) (args : List Id) : Prog Id :=
+def mkMinMax (isMin : Bool) (leNT : Nat) (args : List Nid) : Prog Nid :=
   minMaxAux isMin (fun a b => mkPlain leNT [a, b]) (args.length + 1) args
 
 /-! ### Bit-vectors -/
@@ -745,16 +746,25 @@ inductive BvVal
   | other
   deriving DecidableEq, Repr
 
+def binStep (acc : Option Nat) (c : Char) : Option Nat :=
+  match acc with
+  | none => none
+  | some n => if c = '0' then some (2 * n) else if c = '1' then some (2 * n + 1) else none
+
+/-- `int(s, 2)` for a non-empty string of `0`/`1` -/
 def parseBin : List Char → Option Nat
   | [] => none
-  | cs => cs.foldl (fun acc c =>
-      match acc with
-      | none => none
-      | some n => if c = '0' then some (2 * n) else if c = '1' then some (2 * n + 1) else none) (some 0)
+  | cs => cs.foldl binStep (some 0)
+
+/-- the digits of `"#b…"` / `"…"` -/
+def bvBody (cs : List Char) : List Char :=
+  match cs with
+  | '#' :: 'b' :: rest => rest
+  | _ => cs
 
 /-- `BV(value, width)` (formula.py:601-649). -/
-def mkBV (v : BvVal) (width : Option Nat) : Prog Id :=
-  let fromInt (n : Int) (width : Option Nat) : Prog Id :=
+def mkBV (v : BvVal) (width : Option Nat) : Prog Nid :=
+  let fromInt (n : Int) (width : Option Nat) : Prog Nid :=
     match width with
     | none => failP .valueError
     | some w =>
@@ -763,10 +773,7 @@ def mkBV (v : BvVal) (width : Option Nat) : Prog Id :=
       else create ⟨NT.BV_CONSTANT, [], .bv n.toNat w⟩
   match v with
   | .str x =>
-    let cs := x.toList
-    let body := match cs with
-      | '#' :: 'b' :: rest => rest
-      | _ => cs
+    let body := bvBody x.toList
     match parseBin body with
     | none => failP .valueError
     | some n =>
@@ -780,7 +787,7 @@ def mkBV (v : BvVal) (width : Option Nat) : Prog Id :=
     | none => failP .valueError
     | some _ => failP .typeError
 
-def mkSBV (v : BvVal) (width : Option Nat) : Prog Id :=
+def mkSBV (v : BvVal) (width : Option Nat) : Prog Nid :=
   match v with
   | .int n =>
     match width with
@@ -793,48 +800,48 @@ def mkSBV (v : BvVal) (width : Option Nat) : Prog Id :=
       else mkBV (.int ((2 ^ w : Int) + n)) (some w)
   | _ => mkBV v width
 
-def bvw (i : Id) : Prog Nat :=
+def bvw (i : Nid) : Prog Nat :=
   .read fun s => match s.bvWidth i with
     | some w => .pure w
     | none => .fail .assertion
 
-def mkBVUn (nt : Nat) (f : Id) : Prog Id := do
+def mkBVUn (nt : Nat) (f : Nid) : Prog Nid := do
   let w ← bvw f
   create ⟨nt, [f], .nums [w]⟩
 
-def mkBVBin (nt : Nat) (l r : Id) : Prog Id := do
+def mkBVBin (nt : Nat) (l r : Nid) : Prog Nid := do
   let w ← bvw l
   create ⟨nt, [l, r], .nums [w]⟩
 
-def bvFold (nt : Nat) (res : Id) : List Id → Prog Id
+def bvFold (nt : Nat) (res : Nid) : List Nid → Prog Nid
   | [] => pure res
   | a :: t => do
     let r ← mkBVBin nt res a
     bvFold nt r t
 
 /-- `BVAnd/BVOr/BVAdd/BVMul(*args)`: left-associated. -/
-def mkBVNary (nt : Nat) : List Id → Prog Id
+def mkBVNary (nt : Nat) : List Nid → Prog Nid
   | [] => failP .valueError
   | a :: t => bvFold nt a t
 
-def mkBVConcat2 (l r : Id) : Prog Id := do
+def mkBVConcat2 (l r : Nid) : Prog Nid := do
   let wl ← bvw l
   let wr ← bvw r
   create ⟨NT.BV_CONCAT, [l, r], .nums [(wl + wr : Nat)]⟩
 
-def concatFold (res : Id) : List Id → Prog Id
+def concatFold (res : Nid) : List Nid → Prog Nid
   | [] => pure res
   | a :: t => do
     let r ← mkBVConcat2 res a
     concatFold r t
 
-def mkBVConcat : List Id → Prog Id
+def mkBVConcat : List Nid → Prog Nid
   | a :: b :: t => do
     let r ← mkBVConcat2 a b
     concatFold r t
   | _ => failP .indexError
 
-def mkBVExtract (f : Id) (start : Int) (end_ : Option Int) : Prog Id := do
+def mkBVExtract (f : Nid) (start : Int) (end_ : Option Int) : Prog Nid := do
   let w ← bvw f
   let e : Int := end_.getD ((w : Int) - 1)
   if e ≥ start ∧ start ≥ 0 then
@@ -845,11 +852,11 @@ def mkBVExtract (f : Id) (start : Int) (end_ : Option Int) : Prog Id := do
 
 /-- second operand of a shift: a node or a Python int -/
 inductive BvArg
-  | node (i : Id)
+  | node (i : Nid)
   | int (n : Int)
   deriving DecidableEq, Repr
 
-def mkBVShift (nt : Nat) (l : Id) (r : BvArg) : Prog Id :=
+def mkBVShift (nt : Nat) (l : Nid) (r : BvArg) : Prog Nid :=
   match r with
   | .node r => mkBVBin nt l r
   | .int n => do
@@ -857,22 +864,22 @@ def mkBVShift (nt : Nat) (l : Id) (r : BvArg) : Prog Id :=
     let r ← mkBV (.int n) (some w)
     mkBVBin nt l r
 
-def mkBVRot (nt : Nat) (f : Id) (steps : Int) : Prog Id := do
+def mkBVRot (nt : Nat) (f : Nid) (steps : Int) : Prog Nid := do
   let w ← bvw f
   create ⟨nt, [f], .nums [w, steps]⟩
 
-def mkBVExt (nt : Nat) (f : Id) (inc : Int) : Prog Id := do
+def mkBVExt (nt : Nat) (f : Nid) (inc : Int) : Prog Nid := do
   let w ← bvw f
   create ⟨nt, [f], .nums [(w : Int) + inc, inc]⟩
 
-def mkBVComp (l r : Id) : Prog Id := create ⟨NT.BV_COMP, [l, r], .nums [1]⟩
+def mkBVComp (l r : Nid) : Prog Nid := create ⟨NT.BV_COMP, [l, r], .nums [1]⟩
 
-def mkBVNotOf (nt : Nat) (l r : Id) : Prog Id := do
+def mkBVNotOf (nt : Nat) (l r : Nid) : Prog Nid := do
   let x ← (if nt = NT.BV_XOR then mkBVBin nt l r else mkBVNary nt [l, r])
   mkBVUn NT.BV_NOT x
 
-def mkBVRepeat (f : Id) (count : Int) : Prog Id :=
-  let rec go (res : Id) : Nat → Prog Id
+def mkBVRepeat (f : Nid) (count : Int) : Prog Nid :=
+  let rec go (res : Nid) : Nat → Prog Nid
     | 0 => pure res
     | n + 1 => do
       let r ← mkBVConcat [res, f]
@@ -880,7 +887,7 @@ def mkBVRepeat (f : Id) (count : Int) : Prog Id :=
   go f (count - 1).toNat
 
 /-- `BVSMod` (formula.py:945-988), creation order as CPython evaluates it. -/
-def mkBVSMod (s t : Id) : Prog Id := do
+def mkBVSMod (s t : Nid) : Prog Nid := do
   let m ← bvw s
   let zero1 ← mkBV (.str "#b0") none
   let one1 ← mkBV (.str "#b1") none
@@ -915,37 +922,37 @@ def mkBVSMod (s t : Id) : Prog Id := do
 
 /-! ### Array values -/
 
-def insertByAddr (addr : Id → Nat) (kv : Id × Id) : List (Id × Id) → List (Id × Id)
+def insertByAddr (addr : Nid → Nat) (kv : Nid × Nid) : List (Nid × Nid) → List (Nid × Nid)
   | [] => [kv]
   | h :: t => if addr kv.1 ≤ addr h.1 then kv :: h :: t else h :: insertByAddr addr kv t
 
 /-- `sorted(assigned_values, key=id)` -/
-def sortByAddr (addr : Id → Nat) : List (Id × Id) → List (Id × Id)
+def sortByAddr (addr : Nid → Nat) : List (Nid × Nid) → List (Nid × Nid)
   | [] => []
   | h :: t => insertByAddr addr h (sortByAddr addr t)
 
-def flattenPairs : List (Id × Id) → List Id
+def flattenPairs : List (Nid × Nid) → List Nid
   | [] => []
   | (k, v) :: t => k :: v :: flattenPairs t
 
 /-- The assignments kept by `Array`: sorted by address, default-valued ones dropped. -/
-def arrayAssignments (addr : Id → Nat) (default : Id) (assign : List (Id × Id)) : List (Id × Id) :=
+def arrayAssignments (addr : Nid → Nat) (default : Nid) (assign : List (Nid × Nid)) : List (Nid × Nid) :=
   (sortByAddr addr assign).filter (fun kv => kv.2 != default)
 
 /-- `Array(idx_type, default, assigned_values)` (formula.py:1092-1114).  `assign` are the
     items of the Python dict (distinct keys). -/
-def mkArray (addr : Id → Nat) (idxTy : Ty) (default : Id) (assign : List (Id × Id)) : Prog Id :=
+def mkArray (addr : Nid → Nat) (idxTy : Ty) (default : Nid) (assign : List (Nid × Nid)) : Prog Nid :=
   .read fun s =>
     if assign.all (fun kv => s.isConstant kv.1) then
       create ⟨NT.ARRAY_VALUE, default :: flattenPairs (arrayAssignments addr default assign), .ty idxTy⟩
     else .fail .valueError
 
-def pairsOf : List Id → List (Id × Id)
+def pairsOf : List Nid → List (Nid × Nid)
   | k :: v :: t => (k, v) :: pairsOf t
   | _ => []
 
 /-- The loop of `array_value_get` (fnode.py:650-661) over the `(index, value)` pairs. -/
-def bsearch (addr : Id → Nat) (ps : List (Id × Id)) (target : Id) : Nat → Nat → Nat → Option Id
+def bsearch (addr : Nid → Nat) (ps : List (Nid × Nid)) (target : Nid) : Nat → Nat → Nat → Option Nid
   | 0, _, _ => none
   | fuel + 1, start, end_ =>
     if start < end_ then
@@ -958,7 +965,7 @@ def bsearch (addr : Id → Nat) (ps : List (Id × Id)) (target : Id) : Nat → N
         else bsearch addr ps target fuel (pivot + 1) end_
     else none
 
-def arrayGetC (addr : Id → Nat) (c : Content) (idx : Id) : Option Id :=
+def arrayGetC (addr : Nid → Nat) (c : Content) (idx : Nid) : Option Nid :=
   match c.args with
   | [] => none
   | d :: rest =>
@@ -966,7 +973,7 @@ def arrayGetC (addr : Id → Nat) (c : Content) (idx : Id) : Option Id :=
     some ((bsearch addr ps idx (ps.length + 1) 0 ((c.args.length - 1) / 2)).getD d)
 
 /-- `FNode.array_value_get(index)` -/
-def arrayValueGet (addr : Id → Nat) (s : Mgr) (a idx : Id) : Except Err Id :=
+def arrayValueGet (addr : Nid → Nat) (s : Mgr) (a idx : Nid) : Except Err Nid :=
   if !s.isConstant idx then .error .assertion else
   match s.content? a with
   | none => .error .badId
@@ -978,12 +985,12 @@ def arrayValueGet (addr : Id → Nat) (s : Mgr) (a idx : Id) : Except Err Id :=
 /-! ## `FormulaContextualizer` / `IdentityDagWalker` (formula.py:1125-1196, identitydag.py) -/
 
 /-- `FormulaContextualizer.walk_symbol` on a *source* symbol content. -/
-def copySymbol (c : Content) : Prog Id :=
+def copySymbol (c : Content) : Prog Nid :=
   match c.payload with
   | .sym n t => .prim (.internTy t) fun _ => mkSymbol n t
   | _ => failP .assertion
 
-def copySymbols (src : Mgr) : List Id → Prog (List Id)
+def copySymbols (src : Mgr) : List Nid → Prog (List Nid)
   | [] => pure []
   | v :: t => do
     match src.content? v with
@@ -999,7 +1006,7 @@ def numAt (p : Payload) (k : Nat) : Int :=
   | _ => 0
 
 /-- The `walk_*` callback for a source node `c` whose children were already rebuilt as `args`. -/
-def reconstruct (src : Mgr) (addr : Id → Nat) (c : Content) (args : List Id) : Prog Id :=
+def reconstruct (src : Mgr) (addr : Nid → Nat) (c : Content) (args : List Nid) : Prog Nid :=
   let a0 := args.getD 0 0
   let a1 := args.getD 1 0
   let nt := c.nodeType
@@ -1059,9 +1066,9 @@ def reconstruct (src : Mgr) (addr : Id → Nat) (c : Content) (args : List Id) :
     -- STORE, BV_TONATURAL: the callback is the plain constructor on the rebuilt children
     mkPlain nt args
 
-abbrev Memo := List (Id × Id)
+abbrev Memo := List (Nid × Nid)
 
-def foldMemo (f : Id → Memo → Prog Memo) : List Id → Memo → Prog Memo
+def foldMemo (f : Nid → Memo → Prog Memo) : List Nid → Memo → Prog Memo
   | [], m => pure m
   | a :: t, m => do
     let m' ← f a m
@@ -1069,7 +1076,7 @@ def foldMemo (f : Id → Memo → Prog Memo) : List Id → Memo → Prog Memo
 
 /-- `DagWalker.iter_walk` specialised to the contextualizer: depth first, children last to
     first (the explicit stack pops the last pushed child first), one result per node. -/
-def normAux (src : Mgr) (addr : Id → Nat) : Nat → Id → Memo → Prog Memo
+def normAux (src : Mgr) (addr : Nid → Nat) : Nat → Nid → Memo → Prog Memo
   | 0, _, _ => failP .badId
   | fuel + 1, i, memo =>
     match assoc i memo with
@@ -1084,7 +1091,7 @@ def normAux (src : Mgr) (addr : Id → Nat) : Nat → Id → Memo → Prog Memo
 
 /-- `FormulaManager.normalize(formula)`: re-create node `i` of manager `src` in the current
     manager (`addr` = addresses of the current manager's objects). -/
-def normalize (src : Mgr) (addr : Id → Nat) (i : Id) : Prog Id := do
+def normalize (src : Mgr) (addr : Nid → Nat) (i : Nid) : Prog Nid := do
   let memo ← normAux src addr (i + 1) i []
   match assoc i memo with
   | some r => pure r
